@@ -9,7 +9,7 @@ from props import _c06_tables
 
 ID = "C06"
 COQ_REQUIRE = "C06.Run"
-SHARD = 100
+SHARD = 150
 RULE = ("kernel records printed by the Coq kernel printers (k_stat, k_status) from generated task records: comm of 0-15 bytes "
         "(threads up to 64) over an alphabet weighted towards ')' '(' space tab newline ':' backslash digits, the literal "
         "prefixes 'Uid:\\t' 'Gid:\\t' 'Threads:\\t' 'ctxt_switches:\\t' and bytes >= 0x80; 12 documented state letters + 3 "
@@ -271,7 +271,7 @@ def _raw_ppid_case(rng):
 
 
 def gen_cases(rng, tier):
-    n = {"quick": 1, "thorough": 25, "search": 2}[tier]
+    n = {"quick": 1, "thorough": 10, "search": 2}[tier]
     cases = []
     # every documented state letter (and the unknown ones) once
     for st in STATES:
@@ -634,14 +634,16 @@ def gen_tables(impl_dir, out_dir):
 
 
 MANIFEST = {
-    "text": "Theorems (Coq 8.16, closed under the global context) over the Gallina transcription of _parse_stat_file, the stat-fed "
+    "text": "Theorems (Coq 8.16, all closed under the global context) over the Gallina transcription of _parse_stat_file, the stat-fed "
             "accessors, the four status-file regex scanners, threads(), ppid_map() and get_terminal_map(): for EVERY kernel-formatted "
             "stat record (any comm bytes of any length, any number >= 37 of fields after the name, any digit strings) name/ppid/"
             "status/cpu_times/create_time/cpu_num/terminal return exactly the proc(5) fields (ticks/CLK as exact rationals, "
-            "start/CLK + boot, letter -> STATUS_* over the table generated from the code, tty number -> device path); for every "
-            "status file (any comm) uids/gids/num_threads are exact, num_ctx_switches is exact for comm <= 15 bytes (refuted for 16); "
-            "threads() is exact for any list of threads with any names; ppid_map is exact. The model is tied to the code by running "
-            "the real psutil (public API, fake /proc and /dev) and the model on the same printed records and on a malformed stream.",
+            "start/CLK + boot, letter -> STATUS_* over the table generated from the code, tty number -> device path for every "
+            "major < 2^12 and minor < 2^20) and constructing the Process object never fails; for every status file (any comm) "
+            "uids/gids/num_threads are exact, num_ctx_switches is exact for comm <= 15 bytes (bound shown sharp); threads() is exact "
+            "for any list of threads with any names; ppid_map is exact. Refuted-for-the-old-code witnesses are kept (signed tty_nr). "
+            "The model is tied to the code by running the real psutil (public API, fake /proc and /dev, patched CLOCK_TICKS) and the "
+            "model on the same printed records and on a malformed stream.",
     "note": "Trusted: Coq kernel + vm_compute; hand-written model coq/C06/Model.v (tied by the correspondence run only, including "
             "the regex scanners standing for CPython's re); kernel formats in coq/C06/Spec.v; table translator; harness patches "
             "(CLOCK_TICKS, glob.glob, os.stat, os.listdir); CPython builtins and IEEE doubles. Proof covers the model, sampling covers "
